@@ -87,9 +87,22 @@ def check_property(prop, tier, runs, level_note, assumptions):
     samples = []
     all_exhaustive = True
     outcomes_max = 0
+    # Global deadline of one check (seconds, VERIF_DEADLINE_S): a run that would start after it is recorded as skipped, the budget
+    # of the others is clamped to the time left; the check then still reports what it covered (exhaustive = false), never an alarm.
+    deadline = float(os.environ.get("VERIF_DEADLINE_S", "1800" if tier == "quick" else "12600"))
     for r in runs:
-        rows, hid, binary, wall = explore(r["h"], r["families"], r["bound"], r.get("dev", 0), r.get("budget", 60.0),
-                                          r.get("job_budget", 30.0), r.get("extra", ()))
+        left = deadline - (time.time() - t0)
+        if left < 30.0:
+            _, hid = harness_binary(r["h"])
+            per_run.append(dict(label=r.get("label", ",".join(r["families"])), harness=hid, bound=r["bound"], dev=r.get("dev", 0),
+                                programs=0, executions=0, steps=0, states=0, blocked_execs=0, multi_outcome_programs=0,
+                                exhaustive=False, skipped="global deadline of %.0f s reached before this run" % deadline,
+                                not_run=0, min_bound_completed=None, cache_saturated_programs=0, wall_s=0.0))
+            all_exhaustive = False
+            continue
+        budget = min(r.get("budget", 60.0), left)
+        rows, hid, binary, wall = explore(r["h"], r["families"], r["bound"], r.get("dev", 0), budget,
+                                          min(r.get("job_budget", 30.0), budget), r.get("extra", ()))
         st = dict(label=r.get("label", ",".join(r["families"])), harness=hid, bound=r["bound"], dev=r.get("dev", 0),
                   programs=0, executions=0, steps=0, states=0, blocked_execs=0, multi_outcome_programs=0,
                   exhaustive=True, not_run=0, min_bound_completed=None, cache_saturated_programs=0, wall_s=round(wall, 2))
